@@ -11,6 +11,9 @@ NOTE = ("claims are over the reals within the bounds stated in the evidence file
         "classes and term transformations of /verif/vf (validated each run against the real code on floats), stub contracts listed in the evidence")
 
 CHECKS = {
+    "C19": ("5 C19", "12 driving-force entry points executed with both permeate temperature and pressure symbolic and everything else symbolic "
+                     "(N = 1 step / point; thorough also 2): every leaf raises a repository exception; 9 incomplete-specification classes "
+                     "likewise; vacuity twins with valid specifications must return"),
     "C12": ("5 C12", "Membrane.get_permeance / calculate_activation_energy with n = 1..3 (thorough 4) symbolic experiments per component in any "
                      "order and unit, energy stated / stated per experiment / regressed (lstsq by its normal equations): Arrhenius factor of the "
                      "nearest experiment, measured value at experiment temperatures, regression recovers E on a line, independence of the "
